@@ -121,7 +121,15 @@ def gen_update_entries(rng, ix, a):
     ent = {}
     for cell, v in cells.items():
         ent.setdefault((int(v),) + cell[1:], []).append(cell[0])
-    return {k: np.array(sorted(v), dtype=np.uint32) for k, v in ent.items()}
+    out = {k: np.array(sorted(v), dtype=np.uint32) for k, v in ent.items()}
+    # per-category batch code passes EMPTY row-id arrays for categories that received no rows: under a value the
+    # index does not hold yet, under one it holds, under the common value
+    for _ in range(rng.choice([0, 0, 1, 2])):
+        v = rng.choice(vals + [rng.randrange(8, 12)])
+        key = (int(v),) + tuple(rng.randrange(s) for s in ix.shape[1:])
+        if key not in out:
+            out[key] = np.array([], dtype=np.uint32)
+    return out
 
 
 def gen_mapping(rng, ix, a):
